@@ -97,6 +97,7 @@ func (this *Allocator) getPartitionsNodeIds(partitionCount uint, replicationFact
 		})
 
 		partitionsNodeIds[i] = nodeIds[:math.MinInt(len(nodeIds), int(replicationFactor))]
+		partitionsNodeIds[i] = append([]uint64(nil), partitionsNodeIds[i]...)
 	}
 
 	return partitionsNodeIds
